@@ -150,6 +150,14 @@ def main(tier, seed):
                 if i < len(cps): plist.append(dict(fmt=fmt, entry='parse', template=cps[:i] + [None] + cps[i + 1:]))
         R.run_query(Query('lexical-corrupt/' + fmt, 'c05', 'path_parse', plist, '%d samples cut / corrupted at every position' % len(strs)), confirm, key_of)
         kw = keyword_table(it, get_format(it, fmt))
+        opens = [(kw['compound.brackets_set_extension'][0], kw['compound.brackets_set_extension'][1]), (kw['compound.brackets'][0] + kw['compound.connecter_product'] + kw['compound.separator'], kw['compound.brackets'][1]),
+                 (kw['statement.brackets'][0], kw['statement.copula_inheritance'] + 'b' + kw['statement.brackets'][1])]
+        plist = []
+        for o, c in opens:
+            body = [ord(x) for x in o * 64 + 'a']
+            plist.append(dict(fmt=fmt, entry='parse', template=body + [None]))
+            plist.append(dict(fmt=fmt, entry='parse', template=body + [ord(x) for x in c * 64] + [None]))
+        R.run_query(Query('lexical-deep/' + fmt, 'c05', 'path_parse', plist, 'each bracket kind nested 64 deep (open only / closed) + one arbitrary char'), confirm, key_of)
         shapes = fold_shapes(kw)
         plist = []
         for nm, sp in shapes:
